@@ -24,10 +24,10 @@ STORAGE_ASSUME = [
 
 PROTO_HARNESS = [
     {"bin": "proto_diff", "model": True, "stateful": True, "name": "proto_diff-mem",
-     "quick": ["--backend", "mem", "--hist", "40", "--steps", "45"], "thorough": ["--backend", "mem", "--hist", "2500", "--steps", "60"],
+     "quick": ["--backend", "mem", "--hist", "40", "--steps", "45"], "thorough": ["--backend", "mem", "--hist", "1500", "--steps", "60"],
      "search": ["--backend", "mem", "--hist", "300", "--steps", "45"]},
     {"bin": "proto_diff", "model": True, "stateful": True, "name": "proto_diff-sqlite",
-     "quick": ["--backend", "sqlite", "--hist", "10", "--steps", "40"], "thorough": ["--backend", "sqlite", "--hist", "400", "--steps", "60"],
+     "quick": ["--backend", "sqlite", "--hist", "10", "--steps", "40"], "thorough": ["--backend", "sqlite", "--hist", "250", "--steps", "60"],
      "search": ["--backend", "sqlite", "--hist", "60", "--steps", "45"]},
 ]
 PROTO_TRUST = [
@@ -134,6 +134,7 @@ REGISTRY = {
     "C02": {"props_file": "Props/C02.v", "gen": [], "harness": PROTO_HARNESS, "trusted_base": PROTO_TRUST, "assumptions": PROTO_ASSUME},
     "C06": {"props_file": "Props/C06.v", "gen": [], "harness": PROTO_HARNESS + [
         {"bin": "codec_diff", "model": True, "canon": ["panic_is_err"], "quick": ["--n", "200"], "thorough": ["--n", "6000"]},
+        {"bin": "event_codec_diff", "model": True, "quick": ["--n", "12"], "thorough": ["--n", "300"]},
         {"bin": "storage_diff", "model": True, "stateful": True, "name": "storage_diff-mem", "quick": ["--backend", "mem", "--seqs", "25", "--len", "50"], "thorough": ["--backend", "mem", "--seqs", "600", "--len", "80"]}], "trusted_base": PROTO_TRUST, "assumptions": PROTO_ASSUME},
     "C07": {"props_file": "Props/C07.v", "props_file_extra": ["Props/C07b.v"], "gen": [], "harness": PROTO_HARNESS, "trusted_base": PROTO_TRUST, "assumptions": PROTO_ASSUME},
     "C08": {"props_file": "Props/C08.v", "gen": [], "harness": PROTO_HARNESS + [
